@@ -103,7 +103,13 @@ func (batch *Batch) close() (err error) {
 	if conn != nil {
 		conn.rdeadline.unsetConnReadDeadline()
 		conn.mutex.Lock()
-		conn.offset = batch.offset
+		// The batch may have ended while it was still skipping the records
+		// that precede the offset of the connection (a batch that begins
+		// before it, in a response cut at the size limit): the connection
+		// never moves backwards.
+		if batch.offset > conn.offset {
+			conn.offset = batch.offset
+		}
 		conn.mutex.Unlock()
 
 		if discardErr != nil {
